@@ -94,8 +94,9 @@ def family(name, maxwords, requires, budget, extra=()):
 # the three shapes of the natively confirmed counter-examples are always included
 KNOWN = [("[]", "[0]"), ("[[0],0]", "[[0]]"), ("[0,0]", "[0,0]")]
 # arbitrary keys (words may be empty, one separator allowed): exponentially many key layouts -> small shapes
-family("", 2, [], 6 if THOROUGH else 3, extra=KNOWN)
-family("|keys-nonempty", 2, [NONEMPTY], 6 if THOROUGH else 3, extra=KNOWN)
+# (quick: nkeys(base) + nkeys(curr) <= 3 plus the KNOWN pairs; thorough: <= 4, about 6 CPU-minutes per family)
+family("", 2, [], 4 if THOROUGH else 3, extra=KNOWN)
+family("|keys-nonempty", 2, [NONEMPTY], 4 if THOROUGH else 3, extra=KNOWN)
 # separator-free keys (one word each), non-empty
 family("|keys-dotfree-nonempty", 1, [NONEMPTY], 12 if THOROUGH else 8)
 
